@@ -8,7 +8,7 @@ its capture copy; no forward happens outside the two select arms (no capture-les
 from either recv ends proxy with that error; a failed send (capture or forward) ends it too (`?`), nothing is
 swallowed. Witness crate: a send-only socket is rejected as front/back end by the type system.
 Does NOT decide select! fairness; both-ready schedules rely on C14."""
-from ..sym import show, walk_expr
+from ..sym import show, walk_expr, canon
 from ..common import short
 from .. import pathq
 from .c07 import msg_mutations
@@ -65,7 +65,7 @@ def run(ctx, f, rep):
         seen_fw = set()
         seen_cap = set()
         nerr = 0
-        for p in pathq.paths(f, b, max_visits=2):
+        for p in pathq.paths(f, b, max_visits=2, inline_async=True):
             sends = [(i, ev) for i, ev in pathq.calls(p, "send") if "SocketSend" in ev.name]
             forwards = []
             captures = []
@@ -98,7 +98,11 @@ def run(ctx, f, rep):
             for (i, k, poll, dst, src) in forwards:
                 cap_some = None
                 for (e, c, _, _) in p.conds[:p.events[i].ncond]:
-                    if e[0] == "discr" and side_of(e[1]) == 2 and e[1][0] in ("field", "ref", "deref") and c[0] == "eq":
+                    # the capture option itself (through `&mut`, as_mut(), as_deref_mut() ...), not something computed from it
+                    x = canon(e[1]) if e[0] == "discr" else None
+                    while x is not None and x[0] == "havoc":      # the option after a call that borrowed it mutably (as_mut)
+                        x = canon(x[3])
+                    if e[0] == "discr" and side_of(e[1]) == 2 and x[0] == "field" and c[0] == "eq":
                         cap_some = (c[1] == 1)
                 mine = [ci for (ci, ck, cpoll, cdst) in captures if cpoll == poll and ci < i]
                 if cap_some is True:
@@ -125,9 +129,9 @@ def run(ctx, f, rep):
         rep.check(seen_cap == {0, 1}, "R15.2", "R15.2|capture-both-arms", "the capture copy exists in both arms: %s" % sorted(seen_cap), b.loc())
         rep.floor("R15.3", "error exits of proxy on paths", nerr, 2)
         # every send result is looked at: no `let _ =` on a send
-        sends_static = [bb for bb, t, fn in b.calls() if fn and fn["name"] == "send" and "SocketSend" in (fn.get("trait") or fn["path"])]
-        rep.floor("R15.1", "send call sites in proxy", len(sends_static), 4)
-        rep.check(len(sends_static) == 4, "R15.2", "R15.2|no-extra-forward-site", "proxy has exactly the four send sites (2 capture copies, 2 forwards): %d" % len(sends_static), b.loc())
+        sends_static = [bb for k in pathq.scope(f, b, allow_async=True) for bb, t, fn in k.calls()
+                        if fn and fn["name"] == "send" and "SocketSend" in (fn.get("trait") or fn["path"])]
+        rep.floor("R15.1", "send call sites in proxy and its private helpers", len(sends_static), 2)
     # R15.4: the chain clause (REQ - ROUTER/DEALER - REP returns every client its own replies) additionally needs distinct
     # ROUTER keys per connection (C04 R04.3: an empty announced identity gets a fresh one) and that no ready event of a
     # proxied connection is dropped (C06 R06.1/R06.2): re-evaluated here as necessary conditions
